@@ -153,24 +153,28 @@ theorem splat_rotation_wraps (E : Env ℝ) (hE : FloorEnv E) :
     words are returned with exactly the bits that were written -/
 theorem splat_record_bits_exact (r : Rec) : decRec (encRec r) = some r := decRec_encRec r
 
-/-- positions come back as the float32 value that was stored, exactly: no arithmetic touches them -/
+/-- (unfolding) positions come back as the float32 value that was stored, exactly: no arithmetic touches
+    them.  Holds by `rfl`: it records what `decSplat ∘ encSplat` IS on the position fields; the content is
+    `splat_record_bits_exact` + `splat_roundtrip_count_order`. -/
 theorem splat_position_exact {α : Type} [Scalar α] (E : Env α) (s : Splat α) :
     (decSplat E (encSplat E s)).px = E.of32 (E.to32 s.px) ∧
     (decSplat E (encSplat E s)).py = E.of32 (E.to32 s.py) ∧
     (decSplat E (encSplat E s)).pz = E.of32 (E.to32 s.pz) := ⟨rfl, rfl, rfl⟩
 
-/-- a float32-representable coordinate is returned unchanged -/
+/-- (remark, not a property theorem: the conclusion is the hypothesis) a float32-representable coordinate is
+    returned unchanged -/
 theorem splat_position_exact_f32 {α : Type} [Scalar α] (E : Env α) (s : Splat α)
     (hx : E.of32 (E.to32 s.px) = s.px) : (decSplat E (encSplat E s)).px = s.px := hx
 
-/-- scales: `log (float32 (exp s))` — equal to `s` up to the float32 rounding of `exp` and the
+/-- (unfolding, `rfl`) scales: `log (float32 (exp s))` — equal to `s` up to the float32 rounding of `exp` and the
     rounding of `exp`/`log` themselves (those roundings are not modelled: residue) -/
 theorem splat_scale_log_f32_exp {α : Type} [Scalar α] (E : Env α) (s : Splat α) :
     (decSplat E (encSplat E s)).sx = E.log (E.of32 (E.to32 (E.exp s.sx))) ∧
     (decSplat E (encSplat E s)).sy = E.log (E.of32 (E.to32 (E.exp s.sy))) ∧
     (decSplat E (encSplat E s)).sz = E.log (E.of32 (E.to32 (E.exp s.sz))) := ⟨rfl, rfl, rfl⟩
 
-/-- with exact `exp`/`log` and a float32-representable `exp s`, the scale is returned unchanged -/
+/-- (corollary of `Real.log_exp` under `h32`) with exact `exp`/`log` and a float32-representable `exp s`, the
+    scale is returned unchanged -/
 theorem splat_scale_exact (E : Env ℝ) (hexp : E.exp = Real.exp) (hlog : E.log = Real.log) (s : Splat ℝ)
     (h32 : E.of32 (E.to32 (E.exp s.sx)) = E.exp s.sx) : (decSplat E (encSplat E s)).sx = s.sx := by
   rw [(splat_scale_log_f32_exp E s).1, h32, hexp, hlog, Real.log_exp]
@@ -183,6 +187,17 @@ noncomputable def exEnv : Env ℝ :=
     shC0 := 28209479177387814 / 100000000000000000 }
 
 example : FloorEnv exEnv := fun _ _ => rfl
+
+/-- an environment whose toy float32 fixes 0 and 1: the hypotheses of `splat_position_exact_f32` /
+    `splat_scale_exact` hold in it non-trivially (px = 1; sx = 0, exp 0 = 1) -/
+noncomputable def exEnv32 : Env ℝ :=
+  { exEnv with to32 := fun x => if x = 1 then 1 else 0, of32 := fun w => if w = 1 then 1 else 0 }
+
+example : exEnv32.of32 (exEnv32.to32 (1 : ℝ)) = 1 := by simp [exEnv32]
+example : exEnv32.exp = Real.exp ∧ exEnv32.log = Real.log ∧
+    exEnv32.of32 (exEnv32.to32 (exEnv32.exp (0 : ℝ))) = exEnv32.exp 0 := by
+  refine ⟨rfl, rfl, ?_⟩
+  simp [exEnv32, exEnv]
 example : 0 < exEnv.shC0 := by simp only [exEnv]; norm_num
 example (o : ℝ) : 0 ≤ exEnv.exp (-o) := (Real.exp_pos _).le
 example : ∃ c : ℝ, 0 ≤ c * exEnv.shC0 + 1 / 2 ∧ c * exEnv.shC0 + 1 / 2 ≤ 1 ∧ c ≠ 0 :=
@@ -269,6 +284,129 @@ example : exHeader.inRange ∧ exHeader.valid = true ∧ [exPacked].length = exH
   simp [Packed.fits, exHeader, exPacked, posBytes, shDim]
 
 end spz
+
+section spzspec
+open Spz
+
+/-! ## Part 2b — the published SPZ decoder as an independent specification (over ℝ)
+
+  Written from the reference decoder of github.com/nianticlabs/spz (`unpackGaussian` in load-spz.cc, quoted in the
+  comments of formats/spz/header.go), NOT from the model: plain real-number formulas on the byte values. -/
+
+namespace Published
+
+/-- two's-complement value of a 24-bit little-endian triple -/
+def fixed24 (b0 b1 b2 : UInt8) : Int :=
+  let v : Int := b0.toNat + 256 * b1.toNat + 65536 * b2.toNat
+  if v < 2 ^ 23 then v else v - 2 ^ 24
+
+/-- `position[i] = fixed32 * (1 / (1 << fractionalBits))` -/
+noncomputable def position (fb : Nat) (b0 b1 b2 : UInt8) : ℝ := (fixed24 b0 b1 b2 : ℝ) / 2 ^ fb
+/-- `scale[i] = scale[i] / 16.0f - 10.0f` -/
+noncomputable def scale (b : UInt8) : ℝ := (b.toNat : ℝ) / 16 - 10
+/-- `color[i] = (color[i] / 255.0f - 0.5f) / colorScale`, `colorScale = 0.15` -/
+noncomputable def color (b : UInt8) : ℝ := ((b.toNat : ℝ) / 255 - 0.5) / 0.15
+/-- `xyz = r * (1.0f / 127.5f) + (-1, -1, -1)` -/
+noncomputable def rotation (b : UInt8) : ℝ := (b.toNat : ℝ) * (1 / 127.5) - 1
+/-- `w = sqrt(max(0, 1 - squaredNorm(xyz)))` -/
+noncomputable def rotationW (x y z : ℝ) : ℝ := Real.sqrt (max 0 (1 - (x ^ 2 + y ^ 2 + z ^ 2)))
+/-- `unquantizeSH(x) = (x - 128) / 128` -/
+noncomputable def sh (b : UInt8) : ℝ := ((b.toNat : ℝ) - 128) / 128
+/-- `alpha = invSigmoid(alpha / 255.0f)`, `invSigmoid(x) = log(x / (1 - x))` -/
+noncomputable def alpha (b : UInt8) : ℝ := Real.log (((b.toNat : ℝ) / 255) / (1 - (b.toNat : ℝ) / 255))
+/-- `sigmoid(x) = 1 / (1 + exp(-x))` -/
+noncomputable def sigmoid (x : ℝ) : ℝ := 1 / (1 + Real.exp (-x))
+
+end Published
+
+/-- the decoder's arithmetic at ℝ: `ofInt` is the cast (`float64(int32)`) -/
+def RealEnv (E : Spz.Env ℝ) : Prop := ∀ z : Int, E.ofInt z = (z : ℝ)
+
+theorem spz_position_is_published (E : Spz.Env ℝ) (hE : RealEnv E) (fb : Nat) (hfb : fb ≤ 62) (b0 b1 b2 : UInt8) :
+    fixedCoord E fb b0 b1 b2 = Published.position fb b0 b1 b2 := by
+  rw [spz_fixed_point_value E hE fb hfb]; rfl
+
+theorem spz_scale_is_published (b : UInt8) : (scaleDec b : ℝ) = Published.scale b := by
+  simp [scaleDec, Published.scale, Spz.byteF, natF]
+
+theorem spz_color_is_published (b : UInt8) : (colorDec b : ℝ) = Published.color b := by
+  simp only [colorDec, Published.color, Spz.byteF, natF, RS.lit_eq]
+  norm_num
+
+theorem spz_rotation_is_published (b : UInt8) : (Spz.rotDec b : ℝ) = Published.rotation b := by
+  simp only [Spz.rotDec, Published.rotation, Spz.byteF, natF, RS.lit_eq]
+  norm_num
+
+theorem spz_rotationW_is_published (x y z : ℝ) : rotW x y z = Published.rotationW x y z := by
+  simp only [rotW, Published.rotationW, natF, RS.sqrt_eq]
+  norm_num [_root_.sq]
+
+theorem spz_sh_is_published (b : UInt8) : (shDec b : ℝ) = Published.sh b := by
+  simp [shDec, Published.sh, Spz.byteF, natF]
+
+theorem toNat51_aux : ((51 : UInt8).toNat : ℝ) = 51 := by
+  have h : (51 : UInt8).toNat = 51 := by decide
+  rw [h]; norm_num
+
+/-- DELIBERATE deviation of the repository (header.go:183-203, the `invSigmoid` line is commented out):
+    `spz.Read` stores `alpha/255`, the SIGMOID-domain value, not the published logit.  For every byte that
+    has a logit (0 < b < 255) the stored value is exactly the sigmoid of the published one — and it is not
+    the published value itself (witness b = 51: 0.2 vs log(1/4) < 0). -/
+theorem spz_alpha_is_sigmoid_domain :
+    (∀ b : UInt8, (Spz.alphaDec b : ℝ) = (b.toNat : ℝ) / 255) ∧
+    (∀ b : UInt8, 0 < b.toNat → b.toNat < 255 → Published.sigmoid (Published.alpha b) = Spz.alphaDec b) ∧
+    (Spz.alphaDec (51 : UInt8) : ℝ) ≠ Published.alpha 51 := by
+  refine ⟨fun b => by simp [Spz.alphaDec, Spz.byteF, natF], ?_, ?_⟩
+  · intro b h0 h255
+    have hx0 : (0 : ℝ) < (b.toNat : ℝ) / 255 := by positivity
+    have hx1 : (b.toNat : ℝ) / 255 < 1 := by
+      rw [div_lt_one (by norm_num)]; exact_mod_cast h255
+    simp only [Published.sigmoid, Published.alpha, Spz.alphaDec, Spz.byteF, natF]
+    generalize (b.toNat : ℝ) / 255 = x at hx0 hx1
+    have h1 : 0 < 1 - x := by linarith
+    rw [← Real.log_inv, Real.exp_log (by positivity)]
+    field_simp
+    ring
+  · have hlog : Published.alpha 51 < 0 := by
+      simp only [Published.alpha]
+      have e := toNat51_aux
+      rw [e]
+      apply Real.log_neg <;> norm_num
+    have hpos : (0 : ℝ) < Spz.alphaDec (51 : UInt8) := by
+      have e := toNat51_aux
+      simp only [Spz.alphaDec, Spz.byteF, natF, e]; norm_num
+    linarith
+
+/-- the dequantisation of one record, field by field, is the published decoder's (version 2, fractional
+    bits ≤ 62) — except alpha (`spz_alpha_is_sigmoid_domain`).  Together with `spz_decode_refEncode`
+    (layout): splat `i` of `spz.Read`'s result carries the published values of record `i`. -/
+theorem spz_dequant_is_published (E : Spz.Env ℝ) (hE : RealEnv E) (h : Header) (hv : h.version ≠ 1)
+    (hfb : h.fractionalBits ≤ 62) (p : Packed) :
+    (dequant E h p).pos = ⟨Published.position h.fractionalBits (byteAt p.pos 0) (byteAt p.pos 1) (byteAt p.pos 2),
+      Published.position h.fractionalBits (byteAt p.pos 3) (byteAt p.pos 4) (byteAt p.pos 5),
+      Published.position h.fractionalBits (byteAt p.pos 6) (byteAt p.pos 7) (byteAt p.pos 8)⟩ ∧
+    (dequant E h p).scale = ⟨Published.scale (byteAt p.scale 0), Published.scale (byteAt p.scale 1),
+      Published.scale (byteAt p.scale 2)⟩ ∧
+    (dequant E h p).color = ⟨Published.color (byteAt p.color 0), Published.color (byteAt p.color 1),
+      Published.color (byteAt p.color 2)⟩ ∧
+    (dequant E h p).rot = ⟨Published.rotation (byteAt p.rot 0), Published.rotation (byteAt p.rot 1),
+      Published.rotation (byteAt p.rot 2),
+      Published.rotationW (Published.rotation (byteAt p.rot 0)) (Published.rotation (byteAt p.rot 1))
+        (Published.rotation (byteAt p.rot 2))⟩ ∧
+    (∀ d, (shCoef p d : V3 ℝ) = ⟨Published.sh (byteAt p.sh (d * 3 + 0)), Published.sh (byteAt p.sh (d * 3 + 1)),
+      Published.sh (byteAt p.sh (d * 3 + 2))⟩) ∧
+    (dequant E h p).alpha = (p.alpha.toNat : ℝ) / 255 := by
+  refine ⟨?_, ?_, ?_, ?_, ?_, ?_⟩
+  · simp only [dequant, if_neg hv, spz_position_is_published E hE _ hfb]
+  · simp only [dequant, spz_scale_is_published]
+  · simp only [dequant, spz_color_is_published]
+  · simp only [dequant, spz_rotation_is_published, spz_rotationW_is_published]
+  · intro d; simp only [shCoef, spz_sh_is_published]
+  · simp only [dequant]; exact spz_alpha_is_sigmoid_domain.1 p.alpha
+
+example : RealEnv ⟨fun z => (z : ℝ), fun k => (2 : ℝ) ^ k, 0, 0⟩ := fun _ => rfl
+
+end spzspec
 
 /-! ## Part 3 — PLY splat export (tables regenerated from formats/ply/types.go and reader.go on every run) -/
 
